@@ -18,11 +18,15 @@ def run(P: Program, rep: Report):
     rep.rule("C13.R1", "containment: the only exception parse_single_name_into_parts raises is InvalidNameError, exactly for "
                        "unmatched closing brace, too many commas, unterminated brace and trailing comma; the name middleware "
                        "turns it into a middleware-error block that retains the original entry")
-    raises = [n for n in own_nodes(fi.node) if isinstance(n, ast.Raise)]
-    rep.require_count("C13.R1", "raise sites in parse_single_name_into_parts", len(raises), 4)
-    for r in raises:
+    # the function and the module-level helpers it (transitively) calls
+    from ..model import reachable
+    edges, _st = P.call_graph()
+    fam = [f for f in reachable(edges, [fi]) if f.module is fi.module and f.cls is None]
+    raises = [(f, n) for f in fam for n in own_nodes(f.node) if isinstance(n, ast.Raise)]
+    rep.require_count("C13.R1", "raise sites in parse_single_name_into_parts and its helpers", len(raises), 4)
+    for f, r in raises:
         nm = ast.unparse(r.exc.func) if isinstance(r.exc, ast.Call) else ast.unparse(r.exc) if r.exc else "re-raise"
-        rep.check(nm == "InvalidNameError", "C13.R1", f"raise:{norm_stmt(r)[:60]}", f"{fi.module.relpath}:{r.lineno}", f"raises {nm}, not InvalidNameError")
+        rep.check(nm == "InvalidNameError", "C13.R1", f"raise:{norm_stmt(r)[:60]}", f"{f.module.relpath}:{r.lineno}", f"raises {nm}, not InvalidNameError")
     spl = P.cls("middlewares.names", "SplitNameParts")
 
     def contain(ctx):
@@ -58,6 +62,8 @@ def run(P: Program, rep: Report):
     rep.extra["transitions"] = ex.paths
     if ex.unsupported:
         raise AnalysisError(f"C13.R2: analyser cannot follow parse_single_name_into_parts: {ex.unsupported[0]}")
+    if not ex.mismatches and getattr(ex, "compared_total", 0) < 20:
+        raise AnalysisError("C13.R2: the tokeniser state (locals `sections` / `word`) was never observed: anchor vanished")
     if not ex.mismatches and (len(ex.visited) < 60 or ex.completed < 40):
         raise AnalysisError(f"C13.R2: tokeniser product collapsed ({len(ex.visited)} states, {ex.completed} runs)")
     seen = set()
